@@ -140,9 +140,32 @@ def build(ctx):
                         and ast.unparse(ret.value) in (f"getattr(self, '{field}')", f"self.{field}"))
         ctx.ground(f"crystal.Crystal.{meth}/memo.fill/{field}/single_writer", setters == [meth], tag="F",
                    clause=f"{field} is stored only by {meth}", detail=setters, witness=setters, fn=fn(meth))
-        ctx.ground(f"crystal.Crystal.{meth}/ensures/repeat.equal", guard_ok, tag="F",
-                   clause=f"with {field} present the method returns the stored object first thing (repeating a query returns an equal result)",
-                   detail=ast.unparse(body[0])[:160] if body else None, witness="guard missing or altered", fn=fn(meth))
+        stored_forms = (f"getattr(self, '{field}')", f"self.{field}")
+        if not guard_ok and len(body) == 2 and isinstance(body[0], ast.If) and not body[0].orelse and isinstance(body[1], ast.Return) and body[1].value is not None:
+            # the same discipline spelled the other way round: `if not hasattr(self, field): <fill>` followed by `return <stored>` and nothing else
+            t = body[0].test
+            guard_ok = (isinstance(t, ast.UnaryOp) and isinstance(t.op, ast.Not) and ast.unparse(t.operand) == f"hasattr(self, '{field}')"
+                        and ast.unparse(body[1].value) in stored_forms)
+
+        def repeat_fallback(meth=meth):
+            """Run-time: on the real structures, asking twice (fresh crystal, and after another query) returns equal answers and leaves the core state alone."""
+            kit = history_kit()
+            import io, contextlib
+            with contextlib.redirect_stdout(io.StringIO()):
+                for sname in kit["structures"]:
+                    for hist in ((meth, meth), ("unit_cell_molecules", meth, meth)) if meth in kit["QUERIES"] else ():
+                        bad = kit["run_history"](sname, hist)
+                        if bad:
+                            return {"input": {"structure": sname, "history": list(hist)}, "observed": bad}
+                    if meth not in kit["QUERIES"]:
+                        c = copy.deepcopy(kit["structures"][sname])
+                        a, b = getattr(c, meth)(), getattr(c, meth)()
+                        if _summ(a) != _summ(b):
+                            return {"input": {"structure": sname, "history": [meth, meth]}, "observed": "repeating the query gave a different result"}
+            return None
+        ctx.pattern(f"crystal.Crystal.{meth}/ensures/repeat.equal", guard_ok,
+                    clause=f"with {field} present the method returns the stored object and computes nothing else (repeating a query returns an equal result)",
+                    fallback=repeat_fallback, detail=ast.unparse(body[0])[:160] if body else None, fn=fn(meth))
         # value stored is computed in this call from core + earlier memos: reads(F_c) has no other mutable instance state
         reads = set()
         for n in ast.walk(node):
